@@ -257,6 +257,13 @@ def _gridcase(case):
         g = Grid(eta, [None] * len(shape), man, start, comm, allocateSaveMemory=True)
         g.getAllData()[:] = 0
         blocks = _grid_rank_checks(g, list(L), shape, eta, problems)
+        # the Layout objects as handed out by the manager (after it has computed its buffer sizes and routes) must still
+        # advertise consistent tables
+        for nm in L:
+            lo = g.getLayout(nm)
+            lp_ = []
+            _check_layout(lo, [int(x) for x in lo.nprocs], list(L[nm]), shape, [int(x) for x in lo.ranks], lp_)
+            problems.extend('layout-from-manager:' + x for x in sorted(set(lp_)))
         # accessors must follow the layout also when it is reached through save / restore
         names = list(L)
         g.setLayout(names[0])
